@@ -1174,13 +1174,17 @@ class Context(object):
                 pass
         return command
 
-    def let(self, dest, source):
+    def let(self, dest, source, local=True):
         """
         Create a \\let
 
         Required Arguments:
         dest -- the command sequence to create
         source -- the token to set the command sequence equivalent to
+
+        Keyword Arguments:
+        local -- indicates whether the alias is made in the local
+            context or in the global namespace (\\global\\let)
 
         Examples::
             c.let('bgroup', BeginGroup('{'))
@@ -1189,10 +1193,11 @@ class Context(object):
         # Use nodeName instead of macroName to work with Macros as well as
         # EscapeSequence, e.g. when we do
         # \expandafter\let\csname foo\endcsname=1
+        target = self.top if local else self.contexts[0]
         if source.catcode == Token.CC_ESCAPE:
-            self.top[dest.nodeName] = self[source.nodeName]
+            target[dest.nodeName] = self[source.nodeName]
         else:
-            self.top.lets[dest.nodeName] = source
+            target.lets[dest.nodeName] = source
 
     def chardef(self, name, num):
         """
